@@ -8,7 +8,7 @@
 (* flag bits: UP 0x01, UV 0x04, AT 0x40, ED 0x80.                          *)
 (*                                                                         *)
 (* Input record:                                                           *)
-(*   [flavour \in {"mc","ga"}, rpIdHash, flags \in 0..255, count: BigNat,  *)
+(*   [flavour \in {"mc","ga","custom"}, rpIdHash, flags \in 0..255, count: BigNat,  *)
 (*    acd: option of [aaguid, idLen, idSeed, pk], ext: option of record]   *)
 (* The credential id is Pattern(idSeed, idLen): long ids (up to 70 000     *)
 (* bytes) are carried as a length and a seed and are only materialised     *)
@@ -24,7 +24,7 @@ FlagSets == {up + uv + at + ed : up \in {0, FLAG_UP}, uv \in {0, FLAG_UV}, at \i
 
 MAX_CRED_ID == 65535
 
-ExtSchema(flavour) == IF flavour = "mc" THEN "McExt" ELSE "GaExtOut"
+ExtSchema(flavour) == CASE flavour = "mc" -> "McExt" [] flavour = "ga" -> "GaExtOut" [] flavour = "custom" -> "CallerExt"
 
 ExtBytes(in, F) == IF in.ext = << >> THEN << >> ELSE EncTy(T_Struct(ExtSchema(in.flavour)), in.ext[1], F)
 
